@@ -307,7 +307,7 @@ var c16Letters = []string{
 // RunC16 decides the post-change-hook half of C16 at the RIB tier.
 func RunC16(rep *report.Report, tier string) {
 	depth := 4
-	ck := NewClock(tier, 100*time.Second, 20*time.Minute, 20)
+	ck := NewClock(tier, 100*time.Second, 20*time.Minute, 22)
 	if tier == "thorough" {
 		depth = 7 // (budget-bounded: the search reports the depth it completed)
 	}
@@ -347,6 +347,15 @@ func RunC16(rep *report.Report, tier string) {
 		}
 		res := mc.BFS(mc.Config{Letters: Names(rl), New: NewResolved(o), MaxDepth: d, Deadline: ck.Next(), Workers: 1})
 		Merge(rep, label, res, d)
+	}
+	// the second network instance is created AFTER entries were installed in the default one and the contents were read
+	late := []string{"ADD nh1@D a", "ADD nhg1@D {1}", "ADD v4 p@D ->1"}
+	{
+		o := &Options{Letters: rl, LateVRF: true, Init: Alphabet(late...)}
+		res := mc.BFS(mc.Config{Letters: Names(rl), New: NewResolved(o), MaxDepth: depth - 1, Deadline: ck.Next(), Workers: 1})
+		Merge(rep, "resolved-entry-hook/network-instance-created-late", res, depth-1)
+		o2 := &Options{Letters: letters, Checks: Checks{Hooks: true}, Hook: HookAfterNIs, LateVRF: true, Init: Alphabet(late...)}
+		Search(rep, "rib/hook-config-1/network-instance-created-late", o2, depth-1, ck.Next())
 	}
 	for _, name := range []string{"entries-installed", "groups-in-default-only", ""} {
 		o := &Options{Letters: rl, Lag: true}
